@@ -4,6 +4,10 @@
 # usage: run_repo_tests.sh <junit-out.xml> [pytest args]
 HERE=$(cd "$(dirname "$0")" && pwd)
 OUT=${1:-/dev/null}; shift
+# selene and pytest scratch goes to a directory that is removed afterwards
+SCRATCH=$(mktemp -d "$HERE/../work/repotests_XXXXXX" 2>/dev/null || mktemp -d)
+trap 'rm -rf "$SCRATCH"' EXIT
+export TMPDIR="$SCRATCH"
 cd "${VERIF_REPO:-/repo}" && PYTHONDONTWRITEBYTECODE=1 PYTHONPATH="$HERE/pytest_shim:$HERE/compat" \
   /venv/bin/python -m pytest -q -p no:cacheprovider -x --co -q >/dev/null 2>&1
 cd "${VERIF_REPO:-/repo}" && PYTHONDONTWRITEBYTECODE=1 PYTHONPATH="$HERE/pytest_shim:$HERE/compat" \
